@@ -1691,8 +1691,9 @@ def fe_isar(case):
         spell = ("true", "True", "TRUE")[(len(case["script"]) + len(m["nm"]) + m["n"]) % 3]
         off = ("", ' optional="false"', ' optional="False"')[(len(case["script"]) + m["n"]) % 3]
         attrs = 'name="%s" type="%s"%s' % (m["nm"], _tname(m["t"]), (' optional="%s"' % spell) if m["opt"] else off)
-        dim = {"none": "", "size": '<dimension size="%d"/>' % m["n"],
-               "size2": '<dimension size="%d" size2="%d"/>' % (m["n"], m["aux"]),
+        # (a fixed array may say isVariableSize="false" explicitly)
+        dim = {"none": "", "size": ('<dimension size="%d"/>' if m["n"] % 2 else '<dimension size="%d" isVariableSize="false"/>') % m["n"],
+               "size2": '<dimension size="%d" size2="%d" isVariableSize="False"/>' % (m["n"], m["aux"]),
                "var": '<dimension isVariableSize="true"/>',
                "varsize": '<dimension size="%d" isVariableSize="true"/>' % m["n"],
                "varsize2": '<dimension size="%d" size2="%d" isVariableSize="true"/>' % (m["n"], m["aux"]),
@@ -1719,6 +1720,8 @@ def fe_patch(case):
             lines.append("X %s %s" % (op, r["a"]))
         elif op == "rename":
             lines.append("X rename %s %s" % (r["a"], r["b"]))
+        elif op == "rename_type":
+            lines.append("%s rename %s" % (r["a"], r["b"]))
         elif op == "static":
             lines.append("X static %s %d" % (r["a"], r["n"]))
         elif op in ("dynamic", "limited"):
@@ -1820,9 +1823,10 @@ def frontend_worker(cases, wid, extra):
             got = [(m.name, m.type_name, bool(m.optional), bool(m.greedy), m.bound, m.numeric_size if m.size else None)
                    for m in x.members]
             want = []
+            retype = {r["a"]: r["b"] for r in case["script"] if r["op"] == "rename_type"}
             for m in case["members"]:
                 f = m["f"]
-                want.append((m["nm"], _tname(m["t"]), f == "opt", f == "greedy", m["szr"] if f in ("ext", "limext") else None,
+                want.append((m["nm"], retype.get(_tname(m["t"]), _tname(m["t"])), f == "opt", f == "greedy", m["szr"] if f in ("ext", "limext") else None,
                              m["n"] if f in ("fixed", "limext") else None))
             if got != want:
                 res["fails"].append(dict(basef, what="members after isar%s are %r; the specification gives %r"
